@@ -1,7 +1,8 @@
 #!/bin/bash
-# tools/confirmseed.sh <ID> <a|b> : confirm a seeded change independently in a scratch worktree of /repo:
-#  1. patch applies and builds, 2. the pinned suite passes with it, 3. the demonstration fails with it, 4. and passes without.
-# Writes /verif/seeded/<ID>-<v>/{patch.diff,demo*,README.txt,confirm.log} and prints a one-line summary.
+# tools/confirmseed.sh <ID> <a|b> : confirm a seeded change independently in a scratch worktree of /repo (at main):
+#  1. patch applies and builds (with and without the verif tag), 2. the pinned suite passes with it,
+#  3. the demonstration passes on the clean tree, 4. and fails with the patch.
+# Keeps /verif/seeded/<ID>-<v>/{patch.diff (re-based on main),demo,README.txt,confirm.log,confirm.json}.
 ID=$1; V=$2
 SRC=/tmp/seed/$ID/out/$V
 export GOFLAGS=-mod=mod GOPROXY=off GOSUMDB=off GOTOOLCHAIN=local
@@ -14,21 +15,26 @@ LOG=$DST/confirm.log; : > $LOG
 cd $WT
 demo=$(ls $SRC/demo_test.go $SRC/demo/main.go 2>/dev/null | head -1)
 [ -z "$demo" ] && { echo "$ID-$V: no demo found"; exit 3; }
+PATCH=$SRC/patch.diff; ported=false
+[ -f $SRC/patch.ported.diff ] && { PATCH=$SRC/patch.ported.diff; ported=true; }
 pkg=$(grep -m1 '^package ' $demo | awk '{print $2}')
 case "$pkg" in
-  quickfix) dir=. ;; file) dir=store/file ;; sql) dir=store/sql ;; memory) dir=store/memory ;; internal) dir=internal ;; datadictionary) dir=datadictionary ;;
-  quickfix_test) dir=. ;; file_test) dir=store/file ;; sql_test) dir=store/sql ;; datadictionary_test) dir=datadictionary ;; internal_test) dir=internal;;
-  main) dir=MAIN ;; *) dir=. ;;
+  quickfix|quickfix_test) dir=. ;; file|file_test) dir=store/file ;; sql|sql_test) dir=store/sql ;; memory) dir=store/memory ;;
+  internal|internal_test) dir=internal ;; datadictionary|datadictionary_test) dir=datadictionary ;; main) dir=MAIN ;; *) dir=. ;;
 esac
 rundemo() {
-  if [ "$dir" = MAIN ]; then mkdir -p zzdemo && cp $demo zzdemo/main.go && timeout 600 go run ./zzdemo; rc=$?; rm -rf zzdemo; return $rc
-  else cp $demo $dir/zz_seed_demo_test.go; timeout 900 go test -vet=off -count=1 -run 'Seed' ./$dir; rc=$?; rm -f $dir/zz_seed_demo_test.go; return $rc; fi
+  if [ "$dir" = MAIN ]; then mkdir -p zzdemo && cp $demo zzdemo/main.go && timeout 600 go run -tags verif ./zzdemo; rc=$?; rm -rf zzdemo; return $rc
+  else cp $demo $dir/zz_seed_demo_test.go; timeout 900 go test -tags verif -vet=off -count=1 -run 'Seed' ./$dir; rc=$?; rm -f $dir/zz_seed_demo_test.go; return $rc; fi
 }
-echo "== demo on clean tree" >> $LOG; rundemo >> $LOG 2>&1; clean_rc=$?
-git apply --3way $SRC/patch.diff >> $LOG 2>&1 || git apply $SRC/patch.diff >> $LOG 2>&1 || { echo "$ID-$V: patch does not apply to main"; exit 3; }
+echo "== demo on clean tree (main $(git rev-parse --short HEAD))" >> $LOG; rundemo >> $LOG 2>&1; clean_rc=$?
+if ! git apply $PATCH >> $LOG 2>&1; then
+  git apply --3way $PATCH >> $LOG 2>&1
+  if git diff --name-only --diff-filter=U | grep -q .; then echo "$ID-$V: patch does not apply to main"; exit 3; fi
+fi
 git diff > $DST/patch.diff
 echo "== build" >> $LOG; go build ./... >> $LOG 2>&1 && go build -tags verif ./... >> $LOG 2>&1; build_rc=$?
 echo "== suite with patch" >> $LOG; go test -vet=off -count=1 $(go list ./... | grep -v log/mongo) >> $LOG 2>&1; suite_rc=$?
 echo "== demo with patch" >> $LOG; rundemo >> $LOG 2>&1; patched_rc=$?
 cp $demo $DST/; cp $SRC/README.txt $DST/ 2>/dev/null
-echo "$ID-$V: build=$build_rc suite=$suite_rc demo_clean=$clean_rc demo_patched=$patched_rc pkg=$pkg"
+printf '{"build_rc": %d, "suite_rc": %d, "demo_on_clean_tree_rc": %d, "demo_with_patch_rc": %d, "demo_package_dir": "%s", "patch_ported_to_repaired_tree": %s, "confirmed_at_repo_commit": "%s"}\n' $build_rc $suite_rc $clean_rc $patched_rc "$dir" $ported "$(git rev-parse --short HEAD)" > $DST/confirm.json
+echo "$ID-$V: build=$build_rc suite=$suite_rc demo_clean=$clean_rc demo_patched=$patched_rc pkg=$pkg ported=$ported"
